@@ -3,7 +3,7 @@ use serde_json::json;
 
 use crate::exec;
 use crate::gen::config::{gen_tagged_cfg, Cfg, CfgOpts, Tag};
-use crate::gen::diff::{gen_case, GenOpts, Item, SK};
+use crate::gen::diff::{gen_case, gen_plain_case, GenOpts, Item, SK};
 use crate::rows::{self, RowKind};
 use crate::runner::{Ctx, Failure, Prop, Sup, Tier, Verdict};
 use crate::tape::{fnv, fnv_add, Tape};
@@ -49,7 +49,7 @@ impl Prop for C19 {
         3000
     }
     fn rule(&self) -> String {
-        "cases = git diff streams (all section kinds, commit blocks) x tagged option set (unified or side-by-side, line numbers, narrow widths so that links sit on wrapped/truncated rows) x file-link template over {path},{line},{host} x commit-link template x working directory, GIT_PREFIX and --relative-paths (passed through DeltaEnv), under a plain `git diff` and a `git log -p --relative` calling process. Oracle: (1) removing complete OSC 8 sequences from the --hyperlinks output gives the output without --hyperlinks byte for byte; (2) every link opened on a line is closed on it; (3) every file link's URL equals the template instantiated with normalise(directory rule + path of the section the row belongs to) and, on number cells and hunk headers, with exactly the number displayed in the linked cells; every commit link's URL is the commit template instantiated with exactly the linked text. Non-trivial = >=1 file link carrying a line number and a GIT_PREFIX/relative-paths setting other than the default, or a side-by-side row with links; distinct by hash of (input, argv, env).".to_string()
+        "cases = git diff streams (all section kinds, commit blocks; or a plain `diff -u` stream whose files are named by absolute paths) x tagged option set (unified or side-by-side, line numbers, narrow widths so that links sit on wrapped/truncated rows) x file-link template over {path},{line},{host} x commit-link template x working directory, GIT_PREFIX and --relative-paths (passed through DeltaEnv), under a plain `git diff` and a `git log -p --relative` calling process. Oracle: (1) removing complete OSC 8 sequences from the --hyperlinks output gives the output without --hyperlinks byte for byte; (2) every link opened on a line is closed on it; (3) every file link's URL equals the template instantiated with normalise(directory rule + path of the section the row belongs to) and, on number cells and hunk headers, with exactly the number displayed in the linked cells; every commit link's URL is the commit template instantiated with exactly the linked text. Non-trivial = >=1 file link carrying a line number and a GIT_PREFIX/relative-paths setting other than the default, or a side-by-side row with links; distinct by hash of (input, argv, env).".to_string()
     }
     fn assumptions(&self) -> Vec<String> {
         vec![
@@ -110,7 +110,23 @@ impl Prop for C19 {
         o.max_lines = 6;
         o.text.allow_long = true;
         o.text.long_tokens = 20;
-        let mut case = gen_case(t, &o);
+        // `diff -u /abs/one/x /abs/two/x | delta`, `rg x /abs/dir | delta`: files named by absolute
+        // path in the input are linked as they are named, whatever the working directory
+        let plain_abs = !relative_paths && !git_relative && t.chance(1, 6);
+        let mut case = if plain_abs {
+            let mut c = gen_plain_case(t, &o);
+            let (d1, d2) = (*t.pick(&["/srv/data/one/", "/", "/home/u/my-repo/"]), *t.pick(&["/srv/data/two/", "/tmp/ünï/", "/"]));
+            for it in c.items.iter_mut() {
+                if let Item::Section(s) = it {
+                    s.old_path = format!("{}{}", d1, s.old_path);
+                    s.new_path = format!("{}{}", d2, s.new_path);
+                }
+            }
+            ctx.class("plain-diff-with-absolute-paths");
+            c
+        } else {
+            gen_case(t, &o)
+        };
         case.items.retain(|it| !matches!(it, Item::Section(s) if s.kind == SK::SubmoduleShort));
         for it in case.items.iter_mut() {
             if let Item::Commit(c) = it {
@@ -156,11 +172,12 @@ impl Prop for C19 {
         let secs = case.sections();
         let crows = rows::classify_all(&sc);
         let base = if git_relative { format!("{}/{}", cwd, prefix.clone().unwrap_or_default()) } else { cwd.clone() };
-        let abs = |p: &str| normalize(&format!("{}/{}", base, p));
+        let abs = |p: &str| if p.starts_with('/') { normalize(p) } else { normalize(&format!("{}/{}", base, p)) };
         let tpl = file_tpl.clone().unwrap_or_else(|| "file://{path}".to_string());
         let url_for = |p: &str, line: Option<&str>| tpl.replace("{path}", &abs(p)).replace("{host}", "host.example").replace("{line}", line.unwrap_or(""));
         let file_omitted = cfg.get("file-style") == Some("omit");
         let mut cur: Option<usize> = None;
+        let mut deferred: Option<Failure> = None;
         let mut with_line = false;
         let mut sbs_links = false;
         for (ri, cr) in crows.iter().enumerate() {
@@ -207,7 +224,14 @@ impl Prop for C19 {
                                     let v = fail(format!("the file header of section {} ({} -> {}) must link to `{}` (or the old path)", c, s.old_path, s.new_path, url_for(&s.new_path, None)));
                                     if let (Verdict::Fail(mut f), true) = (v, matches!(s.kind, SK::BinaryModified | SK::BinaryAdded | SK::BinaryDeleted)) {
                                         if url.contains(" (binary file)") {
+                                            // the listed finding KF-C19-1: remembered and reported last,
+                                            // so that the rest of the case is still examined
                                             f.traits.push("binary-file-annotation-in-url".to_string());
+                                            if deferred.is_none() {
+                                                deferred = Some(f);
+                                            }
+                                            i = j;
+                                            continue;
                                         }
                                         return Verdict::Fail(f);
                                     }
@@ -263,6 +287,9 @@ impl Prop for C19 {
                 }
                 i = j;
             }
+        }
+        if let Some(f) = deferred {
+            return Verdict::Fail(f);
         }
         if (with_line && (prefix.is_some() || relative_paths)) || sbs_links {
             let mut h = fnv(&input);
